@@ -174,11 +174,13 @@ def parse_content_disposition(
             elif is_token(value):
                 failed = False
             elif parts:
-                # maybe just ; in filename, in any case this is just
-                # one case fix, for proper fix we need to redesign parser
-                _value = f"{value};{parts[0]}"
+                # maybe just ; in filename: the quoted value goes on up to
+                # the piece that ends with the closing quote
+                _value = value
+                while parts and not is_quoted(_value.rstrip()):
+                    _value = f"{_value};{parts.pop(0)}"
+                _value = _value.rstrip()
                 if is_quoted(_value):
-                    parts.pop(0)
                     value = unescape(_value[1:-1].lstrip("\\/"))
                     failed = False
 
